@@ -335,7 +335,8 @@ def dispatch(ck, an):
         return
     loop = loops[0]
     obs = loop.target.id
-    ck.check(fa.sym.canon(loop.iter) == fa.f.params[1] and not any(isinstance(n, (ast.Continue, ast.Break, ast.Return)) for n in ast.walk(loop)), "ARGFLOW", "S2.all-observers", subj, fa.loc(loop),
+    # (a `continue` can only skip an observer under the subscription test: that is S2.only-subscribed, read off the path guards)
+    ck.check(fa.sym.canon(loop.iter) == fa.f.params[1] and not any(isinstance(n, (ast.Break, ast.Return)) for n in ast.walk(loop)), "ARGFLOW", "S2.all-observers", subj, fa.loc(loop),
              "every observer passed in is visited", "the dispatch loop skips observers or stops early", construct=stmt_text(loop))
     cb_calls = []
     for c in ast.walk(loop):
@@ -352,7 +353,7 @@ def dispatch(ck, an):
         want2 = f"getattr({oatom}, {oatom}._observed_events[type(self).__name__])"
         ck.check(k in (want, want2), "ARGFLOW", "S2.callback-by-class-name", subj, fa.loc(c), "the callback is the observer's method registered under the event's class name",
                  f"callback is {k}", construct=stmt_text(c))
-        sg = fa.syntactic_guards(c)
+        sg = fa.path_guards(c)
         ok = len(sg) == 1 and sg[0][0] == "in" and sg[0][3] and sg[0][1] == "type(self).__name__" and sg[0][2].endswith("._observed_events")
         ck.check(ok, "GUARD", "S2.only-subscribed", subj, fa.loc(c), "the callback runs iff the observer subscribes to this event type", f"callback guarded by {[cmp_key(p) for p in sg]}", construct=stmt_text(c))
         head = fa.cfg.node_of(loop.iter)
@@ -369,7 +370,7 @@ def dispatch(ck, an):
                        ("_nr_callbacks", lambda x: _is_increment(fa, x, "_nr_callbacks")),
                        ("observer()", lambda x: isinstance(x, ast.Expr) and isinstance(x.value, ast.Call) and ast.unparse(x.value) == f"{obs}()")):
         sites = [x for x in ast.walk(loop) if pred(x)]
-        okp = len(sites) == 1 and cb_calls and fa.reachable_from(cb_calls[0][0], sites[0]) and [cmp_key(p) for p in fa.syntactic_guards(sites[0])] == [cmp_key(p) for p in fa.syntactic_guards(cb_calls[0][0])]
+        okp = len(sites) == 1 and cb_calls and fa.reachable_from(cb_calls[0][0], sites[0]) and [cmp_key(p) for p in fa.path_guards(sites[0])] == [cmp_key(p) for p in fa.path_guards(cb_calls[0][0])]
         ck.check(bool(okp), "PATHCOUNT", f"S2.dispatch-protocol-{what}", subj, fa.loc(loop), f"after each callback {what} is updated / invoked exactly once, under the same subscription test",
                  f"dispatch protocol step `{what}` is missing, duplicated or differently guarded ({len(sites)} sites)", construct=what)
     # last_update stamped with the event's time
